@@ -1,12 +1,105 @@
-(* C12 (supervisor core) - INTERIM statement file: the full simulation theorem for mon_C12 is being
-   proved in Sup/RelC12.v; until it lands, this file states what is already machine-checked for every
-   accepted history of the Sup model: the observer's picture (on which the monitor holds_C12 is
-   evaluated) agrees with the model state. *)
+(* C12 Ordered shutdown stops dependents before the processes they depend on.
+   This file contains only the property statements; every proof is `exact <lemma>` (Sup/SimC12.v, Sup/ExC12.v).
+
+   Vocabulary.  A history is the list of (thread, trace point) pairs of one run; [accept (init cs ord) evs = Some s]
+   says the supervisor model Sup replays it (cs = process configurations, ord = ordered-shutdown flag).
+   The observer (Sup/Monitors.v) folds a history into facts per instance: [o_alive j] = a command of instance j
+   was started and has not exited; [o_sd_cur] = for every ShutDownProject call in progress (between its
+   shutdown_order and shutdown_end trace points) the snapshot of registered instances it is stopping.
+
+   What the monitor checks.  [holds_C12 ord cs evs = true] says: with ordered shutdown on, at EVERY stop signal
+   (trace point ESignal i: Commander.Stop() of instance i, whoever issues it), for every shutdown in progress
+   whose snapshot contains i, every instance j of that snapshot whose configuration lists i's process name
+   among its dependencies has no command alive.  ([C12_declarative] spells this out position by position.)
+
+   What is proved.  [C12_main_partial]: every accepted history satisfies the monitor, provided
+     (W)  the history did not go through the check-then-act windows commit (F20/F21) or sdlag (F37)
+          ([W_C12] = w_commit || w_sdlag; the other five window flags are NOT needed),
+     (S)  [c12_side]: every stop execution that concluded "Pending" (stop_pending) was about an instance whose
+          command had never been launched and did not run on that instance's own goroutine
+          (decidable, evaluated on the history; it fails only inside the dup/zombie anomalies F25/F38),
+     (N)  [c12_noforeign]: no stop signal to a member of the snapshot of a shutdown in progress was issued by a
+          thread other than a worker of that shutdown (a thread that passed ordered_go for that instance).
+   [C12_workers] is the same without (N) for the monitor restricted to the signals of the shutdown's own
+   workers ([holds_C12w]) - this is the statement "the ordered shutdown never signals a process while a
+   dependent that was registered when the shutdown began is alive".
+   [C12_refuted]: without (N) the statement is FALSE of the model (and of the code): StopProcess(p) that read
+   the registry before ShutDownProject took the lock signals p while its dependents are alive, outside every
+   window.  [C12_commit_needed], [C12_sdlag_needed]: each flag of (W) is needed (the monitor, even restricted
+   to workers, fails on an accepted history that sets only that flag).
+   [C12_worker_waits]: a worker passes ordered_go(i) only when every dependent of i in the snapshot has
+   completed (the guard of the model; liveness - "the shutdown still completes" - is not proved here). *)
 From Coq Require Import List ZArith NArith Bool.
 From PC.Base Require Import Assoc.
-From PC.Sup Require Import Model Monitors RelCore Agreement RelC02.
+From PC.Sup Require Import Model Monitors Sim SimC12 ExC12.
+Import ListNotations.
 
-Theorem C12_observer_agrees_with_model : forall cs ord evs s,
-  accept (init cs ord) evs = Some s -> Rc cs s (final_obs cs evs).
-Proof. exact sup_agreement. Qed.
-Print Assumptions C12_observer_agrees_with_model.
+Theorem C12_main_partial : forall cs ord evs s,
+  accept (init cs ord) evs = Some s ->
+  W_C12 (final_obs cs evs) = false ->
+  c12_side cs evs = true ->
+  c12_noforeign cs evs = true ->
+  holds_C12 ord cs evs = true.
+Proof. exact C12_main_partial_thm. Qed.
+Print Assumptions C12_main_partial.
+
+Theorem C12_workers : forall cs ord evs s,
+  accept (init cs ord) evs = Some s ->
+  W_C12 (final_obs cs evs) = false ->
+  c12_side cs evs = true ->
+  holds_C12w ord cs evs = true.
+Proof. exact C12_workers_thm. Qed.
+Print Assumptions C12_workers.
+
+(* with ordered shutdown off the monitor constrains nothing: the hypotheses (W), (S), (N) only matter for ord = true *)
+Theorem C12_unordered : forall cs evs, holds_C12 false cs evs = true.
+Proof. exact C12_unordered_thm. Qed.
+Print Assumptions C12_unordered.
+
+(* the monitor, read position by position: at a stop signal for i, for a shutdown in progress whose snapshot
+   contains i, a member j of the snapshot whose configuration depends on i's name has no command alive *)
+Theorem C12_declarative : forall cs evs, holds_C12 true cs evs = true ->
+  forall pre th i sig ponly post, evs = pre ++ (th, ESignal i sig ponly) :: post ->
+  let o := final_obs cs pre in
+  forall sdth snap j, In (sdth, snap) (o_sd_cur o) -> In i snap -> In j snap ->
+    In (o_nm (oi_get o i)) (map fst (deps (conf_of cs (o_nm (oi_get o j))))) ->
+    o_alive (oi_get o j) = false.
+Proof. exact C12_declarative_thm. Qed.
+Print Assumptions C12_declarative.
+
+(* at ordered_go(i) every dependent of i in the snapshot of the shutdown has completed *)
+Theorem C12_worker_waits : forall cs ord evs th i s2,
+  accept (init cs ord) (evs ++ [(th, EOrderedGo i)]) = Some s2 ->
+  exists sdth order x, sd_active s2 = Some (sdth, order) /\ In i order /\ get i (insts s2) = Some x /\
+    forall j y, In j order -> get j (insts s2) = Some y -> In (nm x) (map fst (deps (cf y))) -> l_done y = true.
+Proof. exact C12_worker_waits_thm. Qed.
+Print Assumptions C12_worker_waits.
+
+(* the statement without hypothesis (N) is false of the model, outside every window *)
+Theorem C12_refuted : exists cs ord evs s,
+  accept (init cs ord) evs = Some s /\ holds_C12 ord cs evs = false /\
+  any_window (final_obs cs evs) = false /\ c12_side cs evs = true.
+Proof. exact C12_refuted_thm. Qed.
+Print Assumptions C12_refuted.
+
+(* each window flag of W_C12 is needed: an accepted history that sets ONLY that flag (index in windows_of:
+   1 = sdlag, 2 = commit), satisfies (S) and (N), and on which the monitor fails *)
+Theorem C12_commit_needed : exists cs evs s,
+  accept (init cs true) evs = Some s /\ holds_C12 true cs evs = false /\ holds_C12w true cs evs = false /\
+  only_flag 2 (final_obs cs evs) = true /\ c12_side cs evs = true /\ c12_noforeign cs evs = true.
+Proof. exact C12_commit_needed_thm. Qed.
+Print Assumptions C12_commit_needed.
+
+Theorem C12_sdlag_needed : exists cs evs s,
+  accept (init cs true) evs = Some s /\ holds_C12 true cs evs = false /\ holds_C12w true cs evs = false /\
+  only_flag 1 (final_obs cs evs) = true /\ c12_side cs evs = true /\ c12_noforeign cs evs = true.
+Proof. exact C12_sdlag_needed_thm. Qed.
+Print Assumptions C12_sdlag_needed.
+
+(* non-vacuity: a 46-event accepted history (Run of two processes, 2 depends on 1; ordered shutdown stops 2,
+   waits for its completion, then stops 1) on which all hypotheses hold and the monitor is exercised twice *)
+Example C12_nonvacuous :
+  (exists s, accept (init ex_cs true) ex_good = Some s) /\ length ex_good = 46%nat /\
+  W_C12 (final_obs ex_cs ex_good) = false /\ c12_side ex_cs ex_good = true /\ c12_noforeign ex_cs ex_good = true /\
+  holds_C12 true ex_cs ex_good = true /\ holds_C12w true ex_cs ex_good = true.
+Proof. exact ex_good_ok. Qed.
